@@ -13,7 +13,7 @@ from props.C07 import gen_sel, _py_sel
 
 REQUIRED_THEOREMS = ['Usid.C20.read_frame', 'Usid.C20.history_independent_reads', 'Usid.C20.write_refused',
                      'Usid.C20.ro_never_changes', 'Usid.C20.rw_write_changes', 'Usid.C20.table_functional']
-RULE = ('[also: a Process merely CONSTRUCTED on a writable file whose earlier results carry two disagreeing progress records] [also: a process started on a read-only file that already holds its complete results] [also: every file holds a results group whose source reference is stale] [also: every file holds a dataset that is a Main dataset but for the labels / units of one ancillary] [also: a TARGET group in another file - results group, process, empty dataset written to it and look-ups in it - under every combination of open modes of the source and target files] generator files (a Main dataset with 1-3 dimensions per side, its ancillaries, 0-2 groups of earlier results '
+RULE = ('[also: unit values queried for an ancillary pair whose indices do not start at 0] [also: a Process merely CONSTRUCTED on a writable file whose earlier results carry two disagreeing progress records] [also: a process started on a read-only file that already holds its complete results] [also: every file holds a results group whose source reference is stale] [also: every file holds a dataset that is a Main dataset but for the labels / units of one ancillary] [also: a TARGET group in another file - results group, process, empty dataset written to it and look-ups in it - under every combination of open modes of the source and target files] generator files (a Main dataset with 1-3 dimensions per side, its ancillaries, 0-2 groups of earlier results '
         'holding their own Main dataset, a decoy group, plain datasets) opened "r" and "r+"; random sequences (<= 8 '
         'quick, <= 20 thorough) of the 24 read-side operations with generated arguments; after EVERY operation the '
         'SHA-256 of the file on disk (read-only) and a canonical dump of every dataset and attribute through the open '
@@ -196,6 +196,12 @@ def _make_file(inp, path):
                 rg.attrs['last_pixel'] = n
         decoy = g.create_group('main-Fitting_000')
         decoy.attrs['p'] = 1
+        # a spectroscopic ancillary pair whose indices do not start at 0 (kept from a parent dataset after slicing)
+        shi = g.create_dataset('Shifted_Indices', data=np.array([[1, 2, 3, 1, 2, 3], [4, 4, 4, 5, 5, 5]], dtype=np.uint32))
+        shv = g.create_dataset('Shifted_Values', data=np.array([[5, 6, 7, 5, 6, 7], [10, 10, 10, 20, 20, 20]], dtype=np.float32))
+        for d_ in (shi, shv):
+            d_.attrs['labels'] = np.array(['A', 'B'], dtype='S')
+            d_.attrs['units'] = np.array(['u', 'u'], dtype='S')
         if inp.get('done_proc'):
             import procs
             procs.make_prior_group(g, 'main', 'RowProc', {'zz': 1}, n, mask=[1] * n, source=main)
@@ -410,11 +416,12 @@ def _do(op, cx, inp):
         return _dig(u.reduce(op['dims'], ufunc={'mean': da.mean, 'sum': da.sum, 'max': da.max}[op['ufunc']], to_hdf5=False,
                              verbose=op.get('verbose', False), **kw))
     if name == 'get_unit_values':
+        shifted = _dig(hu.get_unit_values(g['Shifted_Indices'], g['Shifted_Values'], is_spec=True))
         if op['side'] == 'pos':
-            return _dig(hu.get_unit_values(u.h5_pos_inds, u.h5_pos_vals, is_spec=False, dim_names=op.get('dim_names'),
-                                           verbose=op.get('verbose', False)))
-        return _dig(hu.get_unit_values(u.h5_spec_inds, u.h5_spec_vals, is_spec=True, dim_names=op.get('dim_names'),
-                                       verbose=op.get('verbose', False)))
+            return [_dig(hu.get_unit_values(u.h5_pos_inds, u.h5_pos_vals, is_spec=False, dim_names=op.get('dim_names'),
+                                            verbose=op.get('verbose', False))), shifted]
+        return [_dig(hu.get_unit_values(u.h5_spec_inds, u.h5_spec_vals, is_spec=True, dim_names=op.get('dim_names'),
+                                        verbose=op.get('verbose', False))), shifted]
     if name == 'get_pos_values':
         return _dig(u.get_pos_values(op['label']))
     if name == 'get_spec_values':
